@@ -181,7 +181,15 @@ func init() {
 		},
 		"encoding/json.Marshal":   jsonMarshal,
 		"encoding/json.Unmarshal": jsonUnmarshal,
+		"(github.com/google/uuid.UUID).String": func(m *Machine, args []Value, g *Term, site ssa.Instruction) Value {
+			m.stubsUsed["uuid = fresh opaque id"]++
+			return m.fresh("uuid", BV(strW))
+		},
 		"github.com/google/uuid.New": func(m *Machine, args []Value, g *Term, site ssa.Instruction) Value {
+			m.stubsUsed["uuid = fresh opaque id"]++
+			if v, ok := site.(ssa.Value); ok {
+				return m.zero(v.Type())
+			}
 			panic(notEncoded("uuid.New"))
 		},
 		"github.com/google/uuid.NewString": func(m *Machine, args []Value, g *Term, site ssa.Instruction) Value {
